@@ -154,6 +154,12 @@ def gen_conf(rng, compatible):
         for k in ike_a:
             if not set(ike_a[k]) & set(ike_b[k]):
                 ike_b[k].append(ike_a[k][0])
+    if rng.random() < 0.3:
+        # a list that names one algorithm twice (merged from two sources): the preference order is still the order as written
+        d_ = rng.choice([ike_a, ike_b, ch_a, ch_b])
+        k_ = rng.choice([k for k in d_ if len(d_[k]) >= 2] or ['integ'])
+        if len(d_[k_]) >= 2:
+            d_[k_].insert(rng.randrange(len(d_[k_]) + 1), d_[k_][-1] if rng.random() < 0.5 else d_[k_][0])
     return dict(ike_a=ike_a, ike_b=ike_b, child_a=ch_a, child_b=ch_b, ipsec_proto='ah' if rng.random() < 0.2 else 'esp')
 
 
